@@ -6,6 +6,7 @@ run_connection (poll loop stubbed)}, Channel0Handle::close_connection, IoLoopHan
 call_message, send, recv}, Connection::close_impl (thread join stubbed).
 """
 from iocommon import *
+from ioreplay import Validator, report_io
 
 
 def body(ctx):
@@ -15,12 +16,15 @@ def body(ctx):
     ctx.assume("reply and consumer receivers alive, at most one unread reply per channel (dead endpoints: C05)")
     ctx.assume("run_connection / close_impl: the poll loop and the thread join are replaced by stubs returning an arbitrary result (their own behaviour: C05/C18/C20)")
     viol = []
+    global VAL
+    VAL = Validator(ctx, prog)
     server_close(ctx, ex, prog, viol)
     client_close_ok(ctx, ex, prog, viol)
     sealing(ctx, ex, prog, viol)
     run_connection_mapping(ctx, ex, prog, viol)
     handle_close(ctx, ex, prog, viol)
     close_impl(ctx, ex, prog, viol)
+    VAL.run()
     for v in viol[:6]:
         ctx.inconclusive.append(f"C08 counterexample (no native replay generator yet): {v}")
 
@@ -122,8 +126,10 @@ def server_close(ctx, ex, prog, viol):
                            group='server Connection.Close: CloseOk queued last, buffer sealed, every channel and consumer told ServerClosedConnection(code,text), slots drained',
                            sample={'collector': shape, 'consumers': nc})
             if m is not None:
-                viol.append(('server-close', shape, nc, ctx.explain(m, conds)))
+                report_io(ctx, prog, 'server-close', f"server Connection.Close with collector {shape}, {nc} consumers breaks the claim", s, w, [err_name(prog, rv)], s.pc, z3.And(*conds), [fs], shape=shape, infoA=infoA)
                 continue
+            if n <= ctx.q(2, 5):
+                VAL.add(s, w, [err_name(prog, rv)], s.pc, [fs], shape=shape, infoA=infoA, label=f"server-close/{shape}/{nc}")
             # the loop reports done only once the buffer is flushed
             f_done = prog.method('IoLoop', 'is_connection_done')
             io_names = prog.types.fields('IoLoop')
@@ -175,7 +181,9 @@ def client_close_ok(ctx, ex, prog, viol):
             m = ctx.decide(f"c08.close-ok[{nc}]#{n}", s.pc, z3.And(*conds),
                            group='server CloseOk: Ok(CloseOk) to channel 0, ClientClosedConnection to every channel and consumer, state ClientClosed, nothing written')
             if m is not None:
-                viol.append(('close-ok', nc, ctx.explain(m, conds)))
+                report_io(ctx, prog, 'close-ok', f"server CloseOk with {nc} consumers breaks the claim", s, w, [err_name(prog, rv)], s.pc, z3.And(*conds), [fs])
+            elif n <= 2:
+                VAL.add(s, w, [err_name(prog, rv)], s.pc, [fs], label=f"close-ok/{nc}")
     ctx.extra['close_ok_paths'] = n
 
 
